@@ -163,6 +163,12 @@ def run(argv):
                 if calls == 0 or inits < calls:
                     chk.violation({"kind": "k-not-zero-initialised", "backend": b},
                                   f"{calls} EvalRates call sites but {inits} zero initialisers of k[]")
+                for what, cur, got, want in rd.batch_layout():
+                    if what.endswith("-udata") and got != want:
+                        chk.violation({"kind": "batch-parameters", "what": what},
+                                      f"cusparse {what.split('-')[0]} kernel: the rates of system `cur` are not evaluated with its own "
+                                      f"abundances and parameter block (y_cur, &d_udata[cur]) - its temperature window would be "
+                                      f"decided by another cell's Tgas")
                 try:
                     ws = lambda x: None if x is None else "".join(x.split())
                     if [(i, ws(r), ws(c)) for i, r, c in rd.rates("k")] != [(i, ws(r), ws(c)) for i, r, c in Rendered(d / "dense", "dense").rates("k")]:
